@@ -17,20 +17,22 @@ MANIFEST = dict(
          "Props/C03.v slice_eq_ref_from_candidate_contract with regex_matcher_meets_candidate_contract: the RegexMatcher "
          "model — is_match by the HIR semantics, find_candidate_line = leftmost fast-line literal (Candidate) or the "
          "engine's span (Confirmed) — obeys the candidate contract, proved from line_locality_partial, C11's "
-         "build_line_terminator_promise and candidate_never_skips). Hypotheses kept explicit: span_ok (the regex "
-         "engine reports a leftmost match; regex-automata's search is not modelled; satisfiable: span_ok_satisfiable) and "
-         "'fast-line literals contain no \\n' (checked by the C11 oracle every run). Also line_locality_partial, "
+         "build_line_terminator_promise and candidate_never_skips). The same statement is proved for the CRLF terminator "
+         "(c01_lines_reported_iff_content_matches_crlf, local look-around = CRLF line anchors + ASCII word assertions, "
+         "after the D1/D9 repairs; line_locality_crlf). The only non-structural hypothesis is span_ok (the regex engine "
+         "reports a leftmost match; regex-automata's search is not modelled; satisfiable: span_ok_satisfiable); that the "
+         "fast-line literals are non-empty and free of the terminator is proved (literals_free_of_terminator: strip leaves "
+         "no leaf producing it, the extractor only rearranges leaf bytes). Also line_locality_partial, "
          "path_selection_safe, strip_invisible_on_content, without_terminator_fixed_crlf; refuted with witnesses: D9, D1 "
          "(repaired), D17 (known). NOT covered by the theorem (tested only): Unicode word boundaries incl. -w in Unicode "
-         "mode (false in general: D17), CRLF and NUL terminators, the reader (roll-buffer) strategy. Tie to the code: "
+         "mode (false in general: D17), LF anchors under --crlf, the NUL terminator (slow path only), the reader (roll-buffer) strategy. Tie to the code: "
          "end-to-end oracle — patterns (grammar, counted repetitions, case pairs), flags -i -S -s -w -x -F --crlf "
          "--null-data -v, several -e/-f, inputs with invalid UTF-8, bare CR, empty lines, missing final terminator — "
          "through real rg, the library searcher (slice, fragmented reader, passthru) and a reference built with "
          "regex-syntax directly and evaluated per stripped line by the extracted Coq semantics; the literal-search model "
          "(find_lit) is compared with find_candidate_line in C11.",
-    note="partial: the full-strength theorem needs local_looks (excludes Unicode \\b/\\B/-w, CRLF anchors) and the LF "
-         "terminator; span_ok and literal cleanliness are hypotheses; regex-syntax translation and regex-automata trusted "
-         "(differentially tested)",
+    note="partial: the full-strength theorems need local_looks / local_looks_crlf (exclude Unicode \\b/\\B/-w) and the LF or "
+         "CRLF terminator; span_ok is a hypothesis; regex-syntax translation and regex-automata trusted (differentially tested)",
     technique="Coq proof over executable semantics + end-to-end differential oracle (rg, library, reference HIR)",
     design="§7 C01, A.3, §8 D1 D9")
 KNOWN_D17 = "UnicodeLookBehindAcrossLineStart"
